@@ -68,10 +68,28 @@ func (c *caseT) dump() fx.M {
 	return fx.M{"status": int(g.Status), "pubKey": hx(g.PubKey), "members": mem, "pending": len(tk.GetPendingProcessGroups(c.ctx))}
 }
 
+// pendingMembers: the members for which the PendingGroups query (what a member's daemon asks when it starts) lists this group
+func (c *caseT) pendingMembers() []uint64 {
+	out := []uint64{}
+	for _, m := range c.ms {
+		res, err := c.qs.PendingGroups(c.ctx, &tsstypes.QueryPendingGroupsRequest{Address: m.acct.Address.String()})
+		if err != nil {
+			continue
+		}
+		for _, g := range res.PendingGroups {
+			if g == uint64(c.gid) {
+				out = append(out, uint64(m.id))
+			}
+		}
+	}
+	return out
+}
+
 func (c *caseT) emit(m fx.M, errS string) {
 	out := c.dump()
 	out["err"] = errS
 	m["out"] = out
+	m["obs"] = fx.M{"pending": c.pendingMembers()}
 	c.tr.Op(m)
 }
 
